@@ -46,8 +46,8 @@ def explore_set(args):
     tg = sw.targets()
     out = []
     solo = {}
-    is_json = names[0] in sw.JSON_REQS
-    make = sw.make_app_json if is_json else sw.make_app
+    is_json = names[0] in sw.JSON_REQS or names[0] in sw.XML_REQS        # (applications without a WSDL to compare)
+    make = sw.make_app_json if names[0] in sw.JSON_REQS else sw.make_app_xml if names[0] in sw.XML_REQS else sw.make_app
     for n in set(names):
         if n != 'wsdl':
             r0 = sw.call(WsgiApplication(make()), n)
@@ -122,7 +122,8 @@ def run(ctx, rnd):
     import multiprocessing as mp
     m1(ctx)
     sets = [('fp', 'fq'), ('fq', 'fp', 'f'), ('f', 'boom', 'invalid'), ('wsdl', 'fq'), ('g', 'fp', 'wsdl'),
-            ('pt', 'pt2'), ('seg', 'pt'), ('pts', 'seg', 'pt'), ('tag1', 'tag2'), ('tag1', 'pt')]
+            ('pt', 'pt2'), ('seg', 'pt'), ('pts', 'seg', 'pt'), ('tag1', 'tag2'), ('tag1', 'pt'),
+            ('lat', 'utf'), ('utf', 'latdecl', 'utf16')]
     if not ctx.quick:
         sets += [('fp', 'fq', 'wsdl'), ('fp', 'fp'), ('wsdl', 'wsdl', 'fq'), ('f', 'g'), ('invalid', 'fq', 'boom'),
                  ('fp', 'fq', 'f', 'g')]
